@@ -22,6 +22,11 @@ func profiles() map[string]Profile {
 	m["C01"] = p
 
 	p = base
+	p.Name = "C01a" // the convenience API: SetAny/GetAny/DeleteAny/ExistAny over every argument type, Set (random priority), Name, Stats
+	p.Any, p.Set, p.Shape, p.Visit, p.Dump, p.Image, p.Flush, p.MemOnly = 40, 12, 4, 4, 4, 2, 9, 10
+	m["C01a"] = p
+
+	p = base
 	p.Name = "C02"
 	p.MemOnly = 0
 	p.Flush, p.Reopen, p.SetColl, p.RmColl, p.Image, p.Dump = 10, 10, 3, 2, 3, 4
@@ -211,6 +216,9 @@ func cmdGenRun(args []string) {
 		seen[fnv([]byte(strings.Join(lines, "\n")))] = true
 		for _, l := range lines {
 			o := w.Exec(l)
+			if w.rewrite != "" {
+				l, w.rewrite = w.rewrite, ""
+			}
 			fmt.Fprintln(bo, l)
 			fmt.Fprintln(bi, o)
 			st.Ops++
